@@ -37,6 +37,8 @@ def _case(draw):
         'style': draw(st.sampled_from(['block', 'block', 'dq'])), 'pos': draw(st.integers(0, 5)),
         'deltas': [0] + [draw(st.integers(1, 5)) for _ in range(nb - 1)],
         'drop_symbols_later': draw(st.booleans()),
+        # one EvalContext object reused for every build of the history (its symbols then stay the same, only the config changes)
+        'reuse_ctx': draw(st.integers(0, 2)) == 0,
     }
 
 
@@ -97,13 +99,14 @@ def _doc(case, delta):
     return tdoc.mp(items)
 
 
-def _native(case, delta, with_symbols):
+def _native(case, delta, with_symbols, sym_delta=None):
+    sd = delta if sym_delta is None else sym_delta
     g = {}
     for k, spec in case['prog']['cfg']:
         g[k] = _spec_value(spec, delta)
     if with_symbols:
         for k, spec in case['prog']['symbols'].items():
-            g[k] = _spec_value(spec, delta)
+            g[k] = _spec_value(spec, sd)
     lines = _lines(case)
     out = {}
     try:
@@ -118,7 +121,7 @@ def _native(case, delta, with_symbols):
             g2[k] = _spec_value(spec, delta)
         if with_symbols:
             for k, spec in case['prog']['symbols'].items():
-                g2[k] = _spec_value(spec, delta)
+                g2[k] = _spec_value(spec, sd)
         try:
             out['fs'] = ('ok', eval("f'''" + fs['body'] + "'''", g2))
         except Exception as e:      # noqa
@@ -149,14 +152,18 @@ def run_case(case):
     nontrivial = len(pools) >= 2 or (jump and pools) or (nested and pools) or len(case['deltas']) >= 2
     for p in pools:
         labels.add('pool=' + p)
+    shared = None
+    if case.get('reuse_ctx'):
+        shared = EvalContext(eval_symbols={k: _spec_value(s, 0) for k, s in prog['symbols'].items()})
+        labels.add('context-reused')
     for i, delta in enumerate(case['deltas']):
-        with_symbols = not (i > 0 and case['drop_symbols_later'])
+        with_symbols = not (i > 0 and case['drop_symbols_later']) or shared is not None
         doc = _doc(case, delta)
         text = tdoc.render(doc)
-        expected = _native(case, delta, with_symbols)
-        symbols = {k: _spec_value(s, delta) for k, s in prog['symbols'].items()} if with_symbols else {}
+        expected = _native(case, delta, with_symbols, sym_delta=0 if shared is not None else None)
+        symbols = {k: _spec_value(s, 0 if shared is not None else delta) for k, s in prog['symbols'].items()} if with_symbols else {}
         kw = {'filename': 'cfg_c12.yaml'} if case['filename'] else {}
-        status, got = O.try_call(lambda: Config.build(text, raw_yaml=True, eval_ctx=EvalContext(eval_symbols=symbols), **kw))
+        status, got = O.try_call(lambda: Config.build(text, raw_yaml=True, eval_ctx=shared if shared is not None else EvalContext(eval_symbols=symbols), **kw))
         src = f'\nbuild #{i + 1} of {len(case["deltas"])} (filename={"cfg_c12.yaml" if case["filename"] else None}, symbols={sorted(symbols)}):\n{text}'
         if expected['r'][0] == 'err' or expected.get('fs', ('ok',))[0] == 'err':
             labels.add('native-raises')
